@@ -145,7 +145,7 @@ pub fn params(profile: &str) -> Params {
             set(&mut p.w, &[(O::Downgrade, 12), (O::WeakClone, 5), (O::WeakDrop, 7), (O::Upgrade, 10), (O::UpgradeDrop, 6), (O::StoreWeak, 8), (O::NewCyclic, 5), (O::WeakNew, 2), (O::TryUnwrap, 4)]);
             p.fin_rate = 40;
             p.drop_rate = 45;
-            p.fin_minis = vec![(M::WeakToRoot, 6), (M::WeakToDrop, 4), (M::SelfWeakToRoot, 4), (M::Read, 2), (M::DropRoot, 2), (M::ClearSlot, 2), (M::DowngradeRoot, 2)];
+            p.fin_minis = vec![(M::WeakToRoot, 6), (M::WeakToDrop, 4), (M::SelfWeakToRoot, 4), (M::Read, 2), (M::DropRoot, 2), (M::ClearSlot, 2), (M::DowngradeRoot, 2), (M::ChildToRoot, 3), (M::WeakToSlot, 2), (M::SelfWeakToSlot, 2)];
             p.drop_minis = vec![(M::WeakToRoot, 8), (M::SelfWeakToRoot, 4), (M::Collect, 1)];
         }
         "cleaner" => {
@@ -526,6 +526,10 @@ impl<'a> Gen<'a> {
                         // the neighbour holds the only strong pointer to the owner
                         self.push(Op::new(O::SetSlot, &[base + 1, 0, base]));
                         self.push(Op::new(O::Drop, &[base]));
+                        if self.r.chance(1, 2) {
+                            // ... and is itself held only by what the actions captured
+                            self.push(Op::new(O::Drop, &[base + 1]));
+                        }
                     }
                     let ncl = if self.r.chance(1, 2) { k } else { self.r.below(k as u64 + 1) as i64 };
                     for i in 0..ncl {
@@ -584,8 +588,8 @@ impl<'a> Gen<'a> {
     }
 }
 
-fn generate_threads(seed: u64, index: u64) -> Program {
-    let mut r = Rng::new(mix(seed, hash_str("threads"), index));
+fn generate_threads(seed: u64, index: u64, scale: u64) -> Program {
+    let mut r = Rng::new(mix(seed ^ (scale - 1).wrapping_mul(0xA5A5_5A5A_1234_5678), hash_str("threads"), index));
     let mut prog = Program::empty("threads");
     prog.seed = (seed, index);
     prog.config = config_name();
@@ -597,9 +601,9 @@ fn generate_threads(seed: u64, index: u64) -> Program {
         _ => 5 + r.below(8),
     } as usize;
     for t in 0..n {
-        let sub = generate("graph", mix(seed, 0x7EAD + t as u64, index), index);
+        let sub = generate_scaled("graph", mix(seed, 0x7EAD + t as u64, index), index, scale);
         let mut ops = sub.ops;
-        let keep = 3 + r.below(14) as usize;
+        let keep = 3 + r.below(14 * scale) as usize;
         ops.truncate(keep);
         prog.threads.push(ThreadPlan { tls_first: r.chance(1, 2), tls_keep: r.below(4) as u32, ops, knobs: sub.knobs });
     }
@@ -616,12 +620,22 @@ fn generate_threads(seed: u64, index: u64) -> Program {
     prog
 }
 
+/// Depth scale: 1 = the bounds of the quick tier; larger values multiply the caps on operations and objects
+/// (and draw from a different stream, so the thorough tier does not merely repeat the quick one).
 pub fn generate(profile: &str, seed: u64, index: u64) -> Program {
+    generate_scaled(profile, seed, index, 1)
+}
+
+pub fn generate_scaled(profile: &str, seed: u64, index: u64, scale: u64) -> Program {
     if profile == "threads" {
-        return generate_threads(seed, index);
+        return generate_threads(seed, index, scale);
     }
-    let p = params(profile);
-    let mut r = Rng::new(mix(seed, hash_str(profile), index));
+    let mut p = params(profile);
+    if scale > 1 {
+        p.ops = (p.ops.0, p.ops.1 * (1 + scale) / 2, p.ops.2 * scale);
+        p.max_objects = (p.max_objects as u64 * scale).min(96) as u32;
+    }
+    let mut r = Rng::new(mix(seed ^ (scale - 1).wrapping_mul(0xA5A5_5A5A_1234_5678), hash_str(profile), index));
     let mut prog = Program::empty(profile);
     prog.seed = (seed, index);
     prog.config = config_name();
